@@ -1,6 +1,8 @@
+import Toodee.Spec.OpsSpec
 import Toodee.Spec.Cells
 import Toodee.Impl.Translate
 import Toodee.Proofs.TranslateLemmas
+import Toodee.Proofs.Orbit
 /-
   C15 — Translate and flip are the stated bijections on cell positions.
 
@@ -11,10 +13,6 @@ import Toodee.Proofs.TranslateLemmas
 -/
 namespace Toodee
 variable {α : Type}
-
-def translateG (C R mc mr : Nat) : Nat × Nat → Nat × Nat := fun cr => ((cr.1 + mc) % C, (cr.2 + mr) % R)
-def flipRowsG (R : Nat) : Nat × Nat → Nat × Nat := fun cr => (cr.1, R - 1 - cr.2)
-def flipColsG (C : Nat) : Nat × Nat → Nat × Nat := fun cr => (C - 1 - cr.1, cr.2)
 
 /-- the three cell maps are bijections of the `C x R` rectangle -/
 theorem C15_maps_bijective (C R mc mr : Nat) :
@@ -41,7 +39,7 @@ theorem C15_flip_rows (m : Mode) (v : VW) (buf : List α) (h : v.Inv buf.length)
     a.flipRows m buf = .ok (gather buf (v.mapCells (flipRowsG v.numRows))) := by
   unfold Acc.flipRows
   refine flipRowsLoop_spec m buf h _ 0 v.numRows a.rows buf ha.wf ?_ (by omega)
-    (by have := ha.collect_rows; have := ha.wf; have := tr_wf_le_len ha.wf; omega) ?_
+    (by have := tr_wf_le_len ha.wf; omega) ?_
   · rw [ha.abs, List.range_eq_range']; rfl
   · exact (gather_eq_self buf _ (fun p _ => VW.mapCells_eq_self _
       (fun c r _ hr => by simp only [flipPrefG]; rw [if_neg (by omega)]) p)).symm
@@ -72,50 +70,7 @@ theorem C15_translate_cols_only (m : Mode) (v : VW) (buf : List α) (h : v.Inv b
     (hm : mid.1 ≤ v.numCols) (hr : mid.2 = 0 ∨ mid.2 = v.numRows) :
     a.translateWithWrap m getRowMut buf mid =
       .ok (gather buf (v.mapCells (translateG v.numCols v.numRows mid.1 mid.2))) := by
-  have hm2 : mid.2 ≤ v.numRows := by rcases hr with h | h <;> omega
-  have hrow : (if mid.2 = v.numRows then 0 else mid.2) = 0 := by
-    rcases hr with h | h
-    · rw [h]; split <;> rfl
-    · rw [if_pos h]
-  -- the target cell map only rotates inside rows
-  have htgt : ∀ c r, c < v.numCols → r < v.numRows →
-      translateG v.numCols v.numRows mid.1 mid.2 (c, r) =
-        ((c + (if mid.1 = v.numCols then 0 else mid.1)) % v.numCols, r) := by
-    intro c r _ hr'
-    simp only [translateG, Prod.mk.injEq]
-    constructor
-    · split
-      · rename_i h1; rw [h1, Nat.add_mod_right, Nat.add_zero]
-      · rfl
-    · rcases hr with h | h
-      · rw [h, Nat.add_zero, Nat.mod_eq_of_lt hr']
-      · rw [h, Nat.add_mod_right, Nat.mod_eq_of_lt hr']
-  unfold Acc.translateWithWrap
-  simp only [ha.cols, ha.rows, hm, hm2, hrow, not_true_eq_false, if_false, if_true]
-  by_cases hc0 : (if mid.1 = v.numCols then 0 else mid.1) = 0
-  · simp only [hc0, ne_eq, not_true_eq_false, if_false, pure_eq]
-    congr 1
-    refine (gather_eq_self buf _ (fun p _ => VW.mapCells_eq_self _ (fun c r hc hr' => ?_) p)).symm
-    rw [htgt c r hc hr', hc0, Nat.add_zero, Nat.mod_eq_of_lt hc]
-  · simp only [hc0, ne_eq, not_false_eq_true, if_true]
-    rw [ha.collect_rows]
-    simp only [ok_bind]
-    have hcm : (if mid.1 = v.numCols then 0 else mid.1) ≤ v.numCols := by split <;> omega
-    have hC : 0 < v.numCols := by
-      rcases Nat.eq_zero_or_pos v.numCols with h0 | h0
-      · exfalso; apply hc0; split <;> omega
-      · exact h0
-    rw [foldlM_rows buf h (fun c => (c + (if mid.1 = v.numCols then 0 else mid.1)) % v.numCols)
-      (fun c _ => Nat.mod_lt _ hC) _ ?_ v.numRows (Nat.le_refl _)]
-    · congr 1
-      exact gather_congr buf _ _ (fun p _ => VW.mapCells_congr _ _
-        (fun c r hc hr' => by rw [htgt c r hc hr']; simp [prefColG, hr']) p)
-    · intro cur r hl hr'
-      unfold rotateLeftWin
-      rw [if_pos (by simpa [VW.rowWin] using hcm)]
-      simp only [pure_eq]
-      congr 1
-      exact gather_congr cur _ _ (fun p _ => rotlMap_eq_mapCells (hl ▸ h) hr' _ p)
+  exact translate_cols_only m buf h ha getRowMut mid hm hr
 
 /-- the general statement: `get_unchecked_row_mut` of the implementor returns the row window (C02) -/
 theorem C15_translate (m : Mode) (v : VW) (buf : List α) (h : v.Inv buf.length) (a : Acc) (ha : a.Of v buf.length)
@@ -123,6 +78,6 @@ theorem C15_translate (m : Mode) (v : VW) (buf : List α) (h : v.Inv buf.length)
     (mid : Nat × Nat) (hm : mid.1 ≤ v.numCols ∧ mid.2 ≤ v.numRows) :
     a.translateWithWrap m getRowMut buf mid =
       .ok (gather buf (v.mapCells (translateG v.numCols v.numRows mid.1 mid.2))) := by
-  sorry
+  exact translate_spec m buf h ha getRowMut hget mid hm
 
 end Toodee
